@@ -31,8 +31,8 @@
      `]`, choice conditions without `}`, the choice line accepted by validate_choice_syntax; @render / @input / @hook
      operands of the documented shapes; @py bodies with consistent indentation and no directive-like line; blocks
      nested at most 100 deep, inline conditionals at most 50; section numbers of choices as the printer places them;
-     distinct valid passage names; parameters that are identifiers, no keyword, no duplicate, required before
-     optional, defaults trimmed and without comma or bracket; ss_start = None; and the two post passes of the
+     distinct valid passage names; parameters that are identifiers, no keyword, not a reserved positional marker
+     arg_<digits> (fix F07d), no duplicate, required before optional, defaults trimmed and without comma or bracket; ss_start = None; and the two post passes of the
      compiler (validate_passage_arguments with the oracle, _determine_initial_passage) accept compile_ref s.
      Every generated AST of the runs so far satisfies it (counted on every run: ast_not_printable = 0 of 130 quick /
      1300 thorough).
